@@ -325,6 +325,12 @@ func c16FloorTerms(c *Ctx) {
 		for _, ret := range returnsOf(fn) {
 			v := ret.Results[0]
 			if v == ssa.Value(fn.Params[1]) {
+				// the time floor is left out only when min-age retention is switched off (seeded change C16-K also leaves it out
+				// while the sampled height is 0 — on a young chain whose block 0 is itself younger than the minimum age, 0 is a
+				// legitimate sample and blocks younger than the minimum age get pruned)
+				if o, m := everyDisjunctHas(p.mustHoldAt(ret.Ret), []string{"minAge == 0"}); !o {
+					c.viol("floor-terms", "(*pruner.Pruner).applyTimeFloor: time floor skipped", p.Pos(posOf(ret.Ret, fn)), "the block-count floor is returned without the min-age clause although min-age retention is not switched off on this path ("+clip(m, 160)+"): blocks younger than the configured minimum age can be pruned")
+				}
 				continue
 			}
 			if call, isCall := v.(*ssa.Call); isCall {
